@@ -164,6 +164,11 @@ type meshGen struct {
 // position values: a small integer grid (so vertices coincide and weld classes are non-trivial),
 // sometimes displaced by fractions that round differently per decimal place.
 func (c *Ctx) gridCoord() float64 {
+	if c.Rng.Intn(400) == 0 {
+		// non-finite coordinates: NaN / ±Inf keys of weld (Go's int(NaN)), NaN areas, NaN box tests
+		c.Note("coord:non-finite")
+		return []float64{math.NaN(), math.Inf(1), math.Inf(-1)}[c.Rng.Intn(3)]
+	}
 	x := float64(c.Rng.Intn(5) - 2)
 	switch c.Rng.Intn(8) {
 	case 0:
